@@ -17,6 +17,15 @@ add("C20", "exhaustive enumeration of error points (C03 spaces) with the parser'
     "trusted: hook H2 (records the vector before formatting), closed lexicon for token names in messages",
     "DESIGN.md section 4, C20")
 
+add("C02", "bounded-exhaustive document x layout exploration of the real parser against a generating document model",
+    "Every document of finite families (all types to depth 3/4 in four positions, all member sequences to length 2/3, argument lists, every value / annotation / header form, near-keyword names in every slot, six seeds) is rendered in every layout of a finite layout set (default, minimal, uniform fillers incl. comments / CRLF / NBSP, every single-gap deviation, two-gap deviations on seeds), parsed and validated by the real library; the projected tree must equal the generating model in every layout. Exhaustive within those families; nothing sampled.",
+    "trusted: document model / renderer / projection (independent of the library); bounds: type depth, sequence lengths, filler set, deviation count",
+    "DESIGN.md section 4, C02")
+add("C04", "bounded-exhaustive document x layout exploration with a token table as range oracle, plus all malformed cases of the C03 spaces",
+    "For every (document, layout) case of the C02 space every name range and full range reported in the tree is compared with the offsets of the generator's token table; for these and for every malformed case of the C03 spaces every position in trees and diagnostics is checked for bounds, char boundary, line/column agreement, start<=end, nesting and sibling order, and every syntax diagnostic for covering exactly a token / the unlexable offset / the end of the last token (the first one: the first token that cannot continue a sentence).",
+    "trusted: token table of the renderer, reference lexer + Earley recogniser for the offending token, unicode-segmentation for grapheme clusters",
+    "DESIGN.md section 4, C04")
+
 NOT_APPLICABLE = {}
 
 def main():
